@@ -170,6 +170,23 @@ func genM3Idents(r *mon.Rand, n int) []m3Ident {
 		}
 		out[i] = id
 	}
+	// a third of the identity sets: a second value histogram whose bounds differ
+	// from an existing one's by less than the rendering precision (1e-7) - two
+	// histograms with bounds, bucket ids and samples of their own
+	if r.Chance(1, 3) {
+		for i := range out {
+			if out[i].Kind == "hist" && !out[i].IsDur && len(out[i].V) > 0 {
+				tw := out[i]
+				tw.Name += "~near"
+				tw.V = append([]float64(nil), out[i].V...)
+				for k := range tw.V {
+					tw.V[k] += 1e-7 * float64(k+1)
+				}
+				out = append(out, tw)
+				break
+			}
+		}
+	}
 	return out
 }
 
